@@ -458,3 +458,39 @@ Proof.
   destruct (lim_acquire cfg s (w_now w - base) 1 mw) as [wt s']. intros Hne.
   destruct (wt =? -1) eqn:E; [lia|]. destruct (wait _ wt (Some c)) as [i w2]. cbn [fst]. intros ->. reflexivity.
 Qed.
+
+(* ------------------------------------------------------------------ *)
+(* 7. C06 — the bulkhead layer returns its permit exactly when it took one *)
+
+Lemma nth_upd_same {A} (l : list A) n f d : (n < length l)%nat -> nth n (upd n f l) d = f (nth n l d).
+Proof. revert n; induction l as [|x l IH]; intros [|n] H; cbn in *; try lia; auto. apply IH; lia. Qed.
+
+Lemma upd_length {A} (l : list A) n f : length (upd n f l) = length l.
+Proof. revert n; induction l as [|x l IH]; intros [|n]; cbn; auto. Qed.
+
+Definition held_of (w : world) (inst : nat) : Z := snd (nth inst (w_bulkheads w) (0, 0)).
+
+(* whatever the inner layer does (succeed, fail, be cancelled, time out), provided it leaves this
+   instance's permit count as it found it, the bulkhead layer leaves it as IT found it: every admitted
+   execution returns its permit exactly once, refused and cancelled ones return nothing *)
+Theorem bulkhead_layer_balanced pos inst mw (inner : layer) c w :
+  (inst < length (w_bulkheads w))%nat ->
+  (forall c' w', (inst < length (w_bulkheads w'))%nat ->
+     held_of (snd (inner c' w')) inst = held_of w' inst /\ (inst < length (w_bulkheads (snd (inner c' w'))))%nat) ->
+  held_of (snd (bulkhead_layer pos inst mw inner c w)) inst = held_of w inst.
+Proof.
+  intros Hi Hin. unfold bulkhead_layer, held_of.
+  destruct (nth inst (w_bulkheads w) (0, 0)) as [cap held] eqn:En. cbn [snd].
+  destruct (copy_err w c); [cbn [snd]; rewrite En; reflexivity|].
+  destruct (held <? cap).
+  - set (w1 := set_insts w _ _ _ _).
+    assert (H1 : (inst < length (w_bulkheads w1))%nat) by (subst w1; cbn [w_bulkheads set_insts]; rewrite upd_length; exact Hi).
+    destruct (Hin c w1 H1) as [Hh Hl]. unfold held_of in Hh.
+    destruct (inner c w1) as [r w2]. cbn [snd] in *.
+    destruct (nth inst (w_bulkheads w2) (0, 0)) as [cap2 held2] eqn:E2. cbn [snd w_bulkheads set_insts].
+    rewrite nth_upd_same by exact Hl. rewrite E2. cbn [snd] in *.
+    subst w1. cbn [w_bulkheads set_insts] in Hh. rewrite nth_upd_same in Hh by exact Hi. rewrite En in Hh. cbn [snd] in Hh. lia.
+  - destruct (mw =? 0); [cbn [snd]; unfold emit; cbn [w_bulkheads set_trace]; rewrite En; reflexivity|].
+    pose proof (wait_sps w mw (Some c)) as Hw. destruct (wait w mw (Some c)) as [i w1]. cbn [snd] in Hw.
+    destruct i; cbn [snd]; unfold emit; cbn [w_bulkheads set_trace]; rewrite (sp_bu _ _ Hw), En; reflexivity.
+Qed.
